@@ -20,8 +20,8 @@ Orients == << <<1, 0, 1>>, <<0, 1, 1>>, <<-1, 0, 1>>, <<0, -1, 1>>,
               <<-4, -3, 5>>, <<-3, -4, 5>>, <<3, -4, 5>>, <<4, -3, 5>>,
               <<12, 5, 13>>, <<5, 12, 13>>, <<-5, 12, 13>>, <<-12, 5, 13>> >>
 
-VARIABLES fam, ax, bx, by, fx, fy, o, k, zero
-vars == <<fam, ax, bx, by, fx, fy, o, k, zero>>
+VARIABLES fam, ax, bx, by, fx, fy, o, mir, k, zero
+vars == <<fam, ax, bx, by, fx, fy, o, mir, k, zero>>
 
 ToCart(x, y) == << x * ax + y * bx, y * by >>          \* (x, y)/D -> world * D * U
 Images == { <<n, m, ToCart(fx + n * D, fy + m * D)[1], ToCart(fx + n * D, fy + m * D)[2]>> :
@@ -34,14 +34,16 @@ MinOf(X) == CHOOSE x \in X : \A y \in X : x <= y
 Init == /\ fam \in FamSet /\ ax = MinOf(AxSet)
         /\ LET b == CHOOSE b \in BSet : TRUE IN bx = b[1] /\ by = b[2]
         /\ fx = MinOf(FracSet) /\ fy = MinOf(FracSet) /\ o = MinOf(OrientSet)
-        /\ k = MinOf(KSet) /\ zero = FALSE
-Next == \/ \E a \in AxSet : ax' = a /\ UNCHANGED <<fam, bx, by, fx, fy, o, k, zero>>
-        \/ \E b \in BSet : bx' = b[1] /\ by' = b[2] /\ UNCHANGED <<fam, ax, fx, fy, o, k, zero>>
-        \/ \E x \in FracSet : fx' = x /\ UNCHANGED <<fam, ax, bx, by, fy, o, k, zero>>
-        \/ \E y \in FracSet : fy' = y /\ UNCHANGED <<fam, ax, bx, by, fx, o, k, zero>>
-        \/ \E q \in OrientSet : o' = q /\ UNCHANGED <<fam, ax, bx, by, fx, fy, k, zero>>
-        \/ \E j \in KSet : k' = j /\ UNCHANGED <<fam, ax, bx, by, fx, fy, o, zero>>
-        \/ zero' = ~zero /\ UNCHANGED <<fam, ax, bx, by, fx, fy, o, k>>
+        /\ k = MinOf(KSet) /\ zero = FALSE /\ mir = FALSE
+Next == \/ \E a \in AxSet : ax' = a /\ UNCHANGED <<fam, bx, by, fx, fy, o, mir, k, zero>>
+        \/ \E b \in BSet : bx' = b[1] /\ by' = b[2] /\ UNCHANGED <<fam, ax, fx, fy, o, mir, k, zero>>
+        \/ \E x \in FracSet : fx' = x /\ UNCHANGED <<fam, ax, bx, by, fy, o, mir, k, zero>>
+        \/ \E y \in FracSet : fy' = y /\ UNCHANGED <<fam, ax, bx, by, fx, o, mir, k, zero>>
+        \/ \E q \in OrientSet : o' = q /\ UNCHANGED <<fam, ax, bx, by, fx, fy, mir, k, zero>>
+        \/ \E j \in KSet : k' = j /\ UNCHANGED <<fam, ax, bx, by, fx, fy, o, mir, zero>>
+        \/ zero' = ~zero /\ UNCHANGED <<fam, ax, bx, by, fx, fy, o, mir, k>>
+        \* the placement may be a mirrored copy (a reflection times the rotation)
+        \/ mir' = ~mir /\ UNCHANGED <<fam, ax, bx, by, fx, fy, o, k, zero>>
 Spec == Init /\ [][Next]_vars
 
 \* the count of images, each lattice translate once
